@@ -36,7 +36,7 @@ RULE = ("case = one HTTPServer spec (as C01, IP filters at the three levels in m
         "colliding in host+method+path (other client IP, other/absent headers, host byte moved into the method) x a sequence of 5-50 "
         "draws from the pool interleaved with reload steps applied to both twins (identical spec, same rules with other cacheSize / "
         "filters, changed or different rules), run on twin muxes (cache on / off); non-trivial = spec accepted and >=1 step; class = 1 + bit set of "
-        "(some cache hit, some eviction, transparency violated, twin saw 403, 200, 404/405, 400, history has a reload); distinct = distinct (group, input) hashes")
+        "(some cache hit, some eviction, transparency violated, twin saw 403, 200, 404/405, 400, history has a reload, twin saw 413); distinct = distinct (group, input) hashes")
 TRUSTED_BASE = [
     "model coq/model/Mux.v is hand-written; tied to pkg/object/httpserver/mux.go by the per-run correspondence (sampled), "
     "including the cache's key set after every request",
